@@ -34,6 +34,12 @@ func main() {
 			}
 		}
 		fl := items.FloorTime(t, d)
+		// Go-side statement (oracle): the start of the period that contains t, periods counted from the zero time,
+		// which is what time.Truncate computes
+		if !fl.Equal(t.Truncate(d)) {
+			hv.Fail("floor-time", fmt.Sprintf(`{"time":%q,"tick_size_ns":%d}`, t.UTC().Format(time.RFC3339Nano), int64(d)),
+				fmt.Sprintf("FloorTime gives %s, the period containing the time starts at %s", fl.UTC().Format(time.RFC3339Nano), t.Truncate(d).UTC().Format(time.RFC3339Nano)))
+		}
 		fmt.Fprintf(wo, "floor %s %d\n", abs(t), int64(d))
 		fmt.Fprintf(wi, "%s\n", abs(fl))
 		// tick computation as in Consume
